@@ -41,6 +41,11 @@ Definition bind {A B} (r : res A) (f : A -> res B) : res B :=
 Inductive cls := CLeaf | CConst | CZero | CSum | CFSum | CFScalSum | CVecSum | CComp | CFComp
                | CLScal | CFLScal | CRScal | CFRScal | CLVec | CRVec | CFRVec | CFLVec | CPtw.
 
+(* How a class computes is_linear / domain from its operands: the vocabulary of the tables
+   regenerated from the classes' __init__ by translate/op_tables.py (Gen/OpTables.v). *)
+Inductive linrule := LAnd | LFirst | LSecond | LFalse | LTrue | LConstZero | LAndConst.
+Inductive domrule := DFirst | DSecond | DOwn.
+
 (* [subclass_radd b a]: type(b) is a proper subclass of type(a) AND type(b).__radd__ is a
    different function (Functional.__add__) than type(a).__radd__ (Operator.__radd__). *)
 Definition subclass_radd (b a : cls) : bool :=
